@@ -70,6 +70,15 @@ def corpus():
                 "origin": "witness"})
     out.append({"sdl": c05.WITNESS_SDL, "text": c05._W[-2], "base_text": c05._W[-1], "variant": "perm_sels",
                 "origin": "witness"})
+    # seeded C05-b / C06-b: the two orders of each variable-position form are variants of each other
+    forms = dict((n, gen_valid.render({"defs": defs}, "plain"))
+                 for n, defs in gen_valid.variable_position_forms(__import__("random").Random(7)))
+    for a, b, variant in (("one-field-0", "one-field-1", "perm_args"), ("two-fields-0", "two-fields-1", "perm_sels"),
+                          ("input-field-0", "input-field-1", "perm_args"),
+                          ("shared-compatible-first", "shared-incompatible-first", "perm_defs"),
+                          ("shared-3-ops-a", "shared-3-ops-b", "perm_defs"), ("shared-3-ops-a", "shared-3-ops-c", "perm_defs")):
+        out.append({"sdl": c05.WITNESS_SDL, "text": forms[b], "base_text": forms[a], "variant": variant, "origin": "witness"})
+        out.append({"sdl": c05.WITNESS_SDL, "text": forms[a], "base_text": forms[b], "variant": variant, "origin": "witness"})
     chain = c05._CHAIN
     head = "query Q($v: Int) { anchor(req: 1, inn: {v: 1}, lnn: [1]) { ...Ta } }"
     base = head + " " + " ".join(chain)
